@@ -58,6 +58,8 @@ def structural_specs():
         # non-default codes for markets and sectors (the constructors take the market names as arguments)
         ('renamed', one(_c(margin=0.1, names={'LAB': 'WORK', 'GOOD': 'STUFF', 'HH': 'WRK', 'BUS': 'FIRM', 'GOV': 'STATE', 'TF': 'LEVY'}))),
         ('renamed+cap+mon', one(_c(margin=0.1, cap=True, mon=True, names={'LAB': 'L', 'GOOD': 'GOODS', 'CAP': 'OWN'}))),
+        # sector codes that END in a market's code (a look-up by code must not take them for the market)
+        ('suffix-codes', one(_c(margin=0.1, names={'BUS': 'IMP_GOOD', 'HH': 'W_LAB', 'TF': 'X_GOV'}))),
     ]
     fed = {'countries': [topo.base_country('XA', 'CUR'), topo.base_country('RB', 'CUR', region=True)],
            'ext': None, 'links': [['import', 'RB', 'XA'], ['gift', 'XA', 'RB', True, True]], 'xr': {}, 'horizon': 3}
